@@ -471,3 +471,212 @@ def alg_validate(chk, col, cap=None, tag=""):
     if rejected:
         chk.extra["alg_trace_rejected_examples" + tag] = rejected
     return total, acc
+
+
+# ------------------------------------------------------------------------------------------------
+# cross-check of the two specification levels: behaviours of the algorithm-level model, rendered as
+# the abstract events the normaliser would produce, must be accepted by the property-level monitor
+# (current-tree model), and rejected where the defect variants reach a bad state
+# ------------------------------------------------------------------------------------------------
+def _tuple(raw, var):
+    return re.findall(r'"([^"]*)"|\b(TRUE|FALSE|\d+)\b', raw[var])
+
+
+def _vals(raw, var):
+    return [a or b for (a, b) in _tuple(raw, var)]
+
+
+def abstract_events(nodes, path, prog, variant):
+    """per-thread abstract event lists for one model path (list of edges)"""
+    nt = len(nodes[path[0][0]]["tpc"]) if path else 1
+    evs = {p: [] for p in range(1, nt + 1)}
+    ops = PROG_OPS[prog]
+    for (u, v, label) in path:
+        a, b = nodes[u], nodes[v]
+        ra, rb = a["raw"], b["raw"]
+        name = label.split("(")[0]
+        hop = int(ra["hop"])
+        P = int(ops[hop - 1][1]) if hop <= len(ops) else None
+        m = re.match(r"^\w+\((\d+)", label)
+        p = int(m.group(1)) if m else P
+        if p is None:
+            continue
+        e = evs[p]
+        word = int(_vals(ra, "word")[p - 1])
+        slot_a = _vals(ra, "slot")[p - 1]
+        slot_b = _vals(rb, "slot")[p - 1]
+
+        def res_changes(var, role, by):
+            xa, xb = _vals(ra, var)[p - 1], _vals(rb, var)[p - 1]
+            if xa != xb:
+                e.append({"e": "acq", "r": role} if xb == "live" else {"e": "rel", "r": role, "by": by})
+
+        if name in ("HStartSpawn", "AllocTsm", "BoxClosure", "AfterClosure", "AllocTlsPinned", "Clone", "ReturnHandle"):
+            for var, role in (("tls", "tls"), ("stk", "stack"), ("clo", "closure"), ("tsm", "tsm")):
+                res_changes(var, role, "H")
+            sa, sb = _vals(ra, "sres")[p - 1], _vals(rb, "sres")[p - 1]
+            if sa != sb:
+                e.append({"e": "spawn", "ok": sb == "ok"})
+        elif name == "JoinStart":
+            e.append({"e": "call", "op": "join"})
+        elif name == "DropStart":
+            e.append({"e": "call", "op": "drop"})
+        elif name in ("LoadAcquire", "LoadRelaxed"):
+            e.append({"e": "touch", "by": "H", "what": "load", "word": 0})
+            e.append({"e": "xload", "val": word, "acq": name == "LoadAcquire"})
+        elif name == "FutexWait":
+            e.append({"e": "touch", "by": "H", "what": "wait", "word": 0})
+        elif name == "JoinReadSlot":
+            e.append({"e": "touch", "by": "H", "what": "read_slot", "word": word})
+        elif name == "JoinFreeTsm":
+            e.append({"e": "touch", "by": "H", "what": "free", "word": word})
+            e.append({"e": "rel", "r": "tsm", "by": "H"})
+            jres = _vals(rb, "jres")[p - 1]
+            e.append({"e": "ret", "op": "join", "res": "some" if jres == "Some" else "none", "val_ok": True, "eff_ok": True, "hb": True})
+            if jres == "Some":
+                e.append({"e": "vdrop"})        # the joiner drops the value it was given
+        elif name == "DropFlagCas":
+            e.append({"e": "touch", "by": "H", "what": "cas", "word": 0})
+            if _vals(rb, "handle")[p - 1] == "dropped":
+                e.append({"e": "ret", "op": "drop"})
+        elif name == "DropFreeTsm":
+            e.append({"e": "touch", "by": "H", "what": "free", "word": word})
+            if slot_a == "Some" and slot_b == "Dropped":
+                e.append({"e": "vdrop"})
+            e.append({"e": "rel", "r": "tsm", "by": "H"})
+            e.append({"e": "ret", "op": "drop"})
+        elif name == "RunClosure":
+            e.append({"e": "run"})
+            e.append({"e": "fin", "how": "ret" if b["tpc"][p - 1] == "10" else "panic"})
+        elif name == "WriteSlot":
+            e.append({"e": "touch", "by": "T", "what": "write_slot", "word": 0})
+        elif name == "FlagCas":
+            e.append({"e": "touch", "by": "T", "what": "cas", "word": 0})
+        elif name == "ThreadFreeTsm":
+            e.append({"e": "touch", "by": "T", "what": "free", "word": 0})
+            if slot_a == "Some" and slot_b == "Dropped":
+                e.append({"e": "vdrop"})
+            e.append({"e": "rel", "r": "tsm", "by": "T"})
+        elif name == "FreeTls":
+            e.append({"e": "rel", "r": "tls", "by": "T"})
+            e.append({"e": "rel", "r": "closure", "by": "T"})
+        elif name == "PanicFreeTls":
+            e.append({"e": "rel", "r": "tls", "by": "T"})
+        elif name == "Epilogue":
+            e.append({"e": "rel", "r": "stack", "by": "T"})
+            disarmed = _vals(ra, "ctid")[p - 1] == "FALSE"
+            e.append({"e": "texit", "flag": True, "own": 1, "foreign": 0, "last": True, "whole": True, "disarmed": disarmed})
+    last = nodes[path[-1][1]] if path else None
+    if last is not None:
+        term = last["hpc"] == "done" and all(t in ("none", "gone") for t in last["tpc"])
+        for p in evs:
+            held = _vals(last["raw"], "handle")[p - 1] == "held"
+            evs[p].append({"e": "end", "kept": held, "sys": True, "dv": True, "quiet": term})
+    return evs
+
+
+def complete_paths(nodes, edges, init, paths):
+    """extend every tour path to a terminal state (shortest continuation)"""
+    adj = {}
+    for (u, v, l) in edges:
+        if l.split("(")[0] != "Next":
+            adj.setdefault(u, []).append((u, v, l))
+
+    def terminal(n):
+        s = nodes[n]
+        return s["hpc"] == "done" and all(t in ("none", "gone") for t in s["tpc"])
+
+    out = []
+    for path in paths:
+        cur = path[-1][1]
+        seen = {cur: None}
+        queue = [cur]
+        goal = cur if terminal(cur) else None
+        while queue and goal is None:
+            n = queue.pop(0)
+            for e in adj.get(n, []):
+                if e[1] not in seen:
+                    seen[e[1]] = e
+                    if terminal(e[1]):
+                        goal = e[1]
+                        break
+                    queue.append(e[1])
+        ext = []
+        n = goal
+        while n is not None and seen.get(n) is not None:
+            ext.append(seen[n])
+            n = seen[n][0]
+        ext.reverse()
+        out.append(path + ext)
+    return out
+
+
+def spec_crosscheck(chk):
+    """(1) every path of a transition tour of the current-tree model (kernel steps separate), completed
+    to termination, is accepted by ThreadLifeTrace; (2) in the defect variants, every completed tour
+    path whose final state violates a model invariant is rejected by ThreadLifeTrace."""
+    d = os.path.join(chk.work, "xcheck")
+    os.makedirs(d, exist_ok=True)
+    jobs = [("fixed-" + p + f, p, f, "NoThread", "NoThread", None) for p in ("ProgJ", "ProgD", "ProgK") for f in ("FinR", "FinP")]
+    jobs += [("fixed-ProgJJFinRP", "ProgJJ", "FinRP", "NoThread", "NoThread", None),
+             ("fixed-ProgJFinR-mmapfail", "ProgJ", "FinR", "Only1", "NoThread", None),
+             ("fixed-ProgJFinR-clonefail", "ProgJ", "FinR", "NoThread", "Only1", None)]
+    for name, prog, fin, fm, fc, var, _ in DEFECT_VARIANTS:
+        jobs.append((name, prog, fin, fm, fc, var))
+
+    def dump(job):
+        name, prog, fin, fm, fc, var = job
+        cfg = os.path.join(d, name + ".cfg")
+        dot = os.path.join(d, name + ".dot")
+        write_cfg(cfg, prog, fin, 1, fm, fc, variant=var, katomic=False, liveness=False, invariants=False)
+        res = core.run_tlc("ThreadLife_MC", cfg, workers=1, timeout=600, dump=dot, xmx="1g",
+                           metadir=os.path.join(d, "md-" + name), extra=["-deadlock"])
+        return res, dot
+
+    with ThreadPoolExecutor(max_workers=6) as ex:
+        dumps = list(ex.map(dump, jobs))
+    items = []
+    meta = []
+    for job, (res, dot) in zip(jobs, dumps):
+        core.tlc_must_pass(res, "ThreadLife dump " + job[0])
+        chk.add_tlc(res)
+        nodes, edges, init = parse_dot(dot)
+        paths, nreal = tour(nodes, edges, init)
+        paths = complete_paths(nodes, edges, init, paths)
+        for path in paths:
+            if not path:
+                continue
+            last = nodes[path[-1][1]]
+            bad_model = last["raw"]["bad"].strip() != "{}"
+            term = last["hpc"] == "done" and all(t in ("none", "gone") for t in last["tpc"])
+            for p, evs in abstract_events(nodes, path, job[1], job[5]).items():
+                items.append(("x", evs))
+                meta.append({"job": job[0], "fixed": job[5] is None, "p": p, "bad_model": bad_model, "term": term,
+                             "slot": _vals(last["raw"], "slot")[p - 1], "stuck": not term})
+    verdicts, n = T.judge(chk, "xcheck", items)
+    chk.evaluations += n
+    false_alarms = []
+    missed = 0
+    caught = 0
+    for i, m in enumerate(meta):
+        rules = sorted({r for (r, _) in verdicts.get(i, [])})
+        if m["fixed"]:
+            if rules:
+                false_alarms.append({"job": m["job"], "thread": m["p"], "rules": rules, "trace": items[i][1]})
+        elif m["bad_model"] or m["stuck"]:
+            if rules:
+                caught += 1
+            else:
+                missed += 1
+    out = {"paths_rendered": len(items), "fixed_model_paths_rejected": len(false_alarms),
+           "defect_paths_with_model_violation_caught": caught, "defect_paths_with_model_violation_not_caught": missed}
+    chk.extra["spec_level_crosscheck"] = out
+    if false_alarms:
+        chk.extra["spec_level_crosscheck_false_alarms"] = false_alarms[:3]
+        raise core.ToolError("ThreadLifeTrace rejects behaviours of the verified model: %s" % json_short(false_alarms[0]))
+    return out
+
+
+def json_short(x):
+    import json
+    return json.dumps(x)[:1500]
